@@ -124,6 +124,18 @@ func (g *PipeGen) sortTerms(s Schema, forceTotal bool) []SortTerm {
 		var x *E
 		if cols := s.cols()[t]; len(cols) > 0 && g.Rng.Intn(3) != 0 {
 			x = &E{K: "name", Parts: []Ident{cols[g.Rng.Intn(len(cols))]}}
+			if g.Rng.Intn(4) == 0 {
+				// a column under one order-reversing or order-keeping operator
+				// (NULL stays NULL, so NULL placement must not follow the reversal)
+				switch t {
+				case TInt:
+					x = []*E{Un("-", x), Bin("*", x, Un("-", Num("1"))), Bin("-", Num("0"), x), Bin("+", x, Num("1"))}[g.Rng.Intn(4)]
+				case TBool:
+					x = Call("not", x)
+				case TStr:
+					x = Call([]string{"tolower", "toupper"}[g.Rng.Intn(2)], x)
+				}
+			}
 		} else {
 			x = g.expr(s, t)
 			if x.K == "num" || (x.K == "name" && len(x.Parts) == 1 && len(g.Bound) > 0) {
